@@ -265,6 +265,14 @@ impl Ctx {
         for (k, v) in extra {
             coverage.insert(k, v);
         }
+        // results of a companion pass (e.g. the wrapping-overflow build of C09) are embedded
+        if let Ok(p) = std::env::var("VERIF_MERGE") {
+            if let Ok(txt) = std::fs::read_to_string(&p) {
+                if let Ok(v) = serde_json::from_str::<Value>(&txt) {
+                    coverage.insert("companion_pass".into(), json!({"file": p, "evaluations": v["coverage"]["evaluations"], "violations": v["violations"], "verdict": v["coverage"]["verdict"], "max_ratio": v["coverage"]["max_ratio"], "counters": v["coverage"]["counters"]}));
+                }
+            }
+        }
         let verdict = if !real.is_empty() {
             "violated"
         } else if !unmet.is_empty() {
@@ -285,7 +293,7 @@ impl Ctx {
         });
         let evdir = format!("{}/evidence", VERIF_ROOT);
         let _ = std::fs::create_dir_all(&evdir);
-        let evpath = format!("{}/{}.json", evdir, self.id);
+        let evpath = std::env::var("VERIF_EVIDENCE_PATH").unwrap_or_else(|_| format!("{}/{}.json", evdir, self.id));
         if self.tier != "replay" {
             std::fs::write(&evpath, serde_json::to_string_pretty(&ev).unwrap()).expect("write evidence");
         }
